@@ -1,7 +1,7 @@
 """C14 — JSON-RPC framing and request completion (DESIGN §4 C14)."""
 import glob
 from tbxlint.facts import extract, AnalysisBroken, MODULES
-from tbxlint import tmon, locks, q, exc, rd, reent
+from tbxlint import harden, tmon, locks, q, exc, rd, reent
 
 NS = 'tbox::jsonrpc::'
 PROTOS = ['HeaderStreamProto', 'RawStreamProto', 'PacketProto']
@@ -346,4 +346,7 @@ def run(ctx):
     ctx.guard(r7, ctx, prog)
     ctx.guard(r8, ctx, prog)
     ctx.guard(tmon.run, ctx, prog, 'C14.R9')
+    ctx.guard(harden.run, ctx, prog, 'C14.R10', [prog.fn1(NS + p + '::onRecvData') for p in PROTOS] + [prog.fn1(NS + 'Proto::onRecvJson')] +
+              [prog.fn1(RPC + '::' + n) for n in ('onRecvRequest', 'onRecvRespond')],
+              lambda g: g.file.startswith(MODULES + '/jsonrpc/') or g.file.startswith(MODULES + '/util/'), 'JSON-RPC receive path')
     return prog
